@@ -81,3 +81,103 @@ Definition c20_check (c : c20case) : bool :=
   end.
 
 Definition c20_show (c : c20case) := c20_out c.
+
+(* ================= access-level correspondence =================
+   Used when the line-label table no longer matches the source (a rewrite of the anchored
+   functions): model and implementation are compared at the granularity of accesses to
+   MUTABLE shared locations (the _dict_value slot of a key, a draw).  Steps that touch no
+   mutable shared location are invisible: they commute with every step of every other
+   thread, so an interleaving is determined by the order of the visible accesses. *)
+Definition access_of (a : action) : option (option nat) :=
+  match a with
+  | ATest k | ARead k | AAssign k | AUpdate k | ASetKid k _ => Some (Some k)
+  | AReadObj k _ | AIterNext k _ _ _ => Some (Some k)
+  | ADraw => Some None
+  | _ => None
+  end.
+
+(* thread p runs up to and including its next visible access *)
+Fixpoint run_to_access {A} (fuel : nat) (im : imm) (w : world) (p : prog A)
+  : world * prog A * option (option nat) :=
+  match fuel with
+  | O => (w, p, None)
+  | S f =>
+    match p with
+    | Ret _ => (w, p, None)
+    | Act l a k =>
+        let '(w', o) := sem im a w in
+        match access_of a with
+        | Some acc => (w', k o, Some acc)
+        | None => run_to_access f im w' (k o)
+        end
+    end
+  end.
+
+(* run to completion; None when a visible access is still pending (the implementation made fewer accesses) *)
+Fixpoint finish {A} (fuel : nat) (im : imm) (w : world) (p : prog A) : option (world * A) :=
+  match fuel with
+  | O => None
+  | S f =>
+    match p with
+    | Ret a => Some (w, a)
+    | Act l a k =>
+        match access_of a with
+        | Some _ => None
+        | None => let '(w', o) := sem im a w in finish f im w' (k o)
+        end
+    end
+  end.
+
+Fixpoint run_acc {A} (im : imm) (sched : list (nat * option nat)) (w : world) (ts : list (prog A))
+  : world * list (prog A) * bool :=
+  match sched with
+  | [] => (w, ts, true)
+  | (t, acc) :: r =>
+    match nth_error ts t with
+    | Some p =>
+        let '(w', p', got) := run_to_access 4000 im w p in
+        let same := match got, acc with
+                    | Some (Some k), Some k' => Nat.eqb k k'
+                    | Some None, None => true
+                    | _, _ => false
+                    end in
+        let '(w'', ts'', ok) := run_acc im r w' (upd ts t p') in
+        (w'', ts'', same && ok)
+    | None => (w, ts, false)
+    end
+  end.
+
+Fixpoint finish_all {A} (im : imm) (w : world) (ts : list (prog A)) : world * list (option A) :=
+  match ts with
+  | [] => (w, [])
+  | p :: r =>
+    match finish 4000 im w p with
+    | Some (w', a) => let '(w'', l) := finish_all im w' r in (w'', Some a :: l)
+    | None => let '(w'', l) := finish_all im w r in (w'', None :: l)
+    end
+  end.
+
+Inductive c20acc :=
+| CAcc (fixed : bool) (im : imm) (pre : list bool) (sets : list (list nat)) (regs : list creg) (picks : list nat)
+       (setup : list call) (calls : list call)
+       (accesses : list (nat * option nat))      (* (thread, key whose slot is accessed | None = a draw), in execution order *)
+       (results : list (res pv)) (finals : list (bool * bool * bool)).
+
+(* (the access pattern of the implementation is the model's, the outcomes agree) *)
+Definition c20acc_eval (c : c20acc) : bool * bool :=
+  match c with
+  | CAcc fx im pre sets regs picks setup calls acc results finals =>
+      let ps := map (compile fx im (pick_of picks)) calls in
+      let '(w0, _) := seq_all im (start_world im pre sets regs) (map (compile fx im (pick_of picks)) setup) in
+      let '(w1, ts1, same) := run_acc im acc w0 ps in
+      let '(w2, rs) := finish_all im w1 ts1 in
+      let complete := forallb (fun o => match o with Some _ => true | None => false end) rs in
+      (same && complete,
+       list_eqb2 opt_res_eqb rs results &&
+       list_eqb (fun a b => let '(a1, a2, _) := a in let '(b1, b2, _) := b in Bool.eqb a1 b1 && Bool.eqb a2 b2)
+                (map key_final (w_keys w2)) finals)
+  end.
+(* alarm only when the access pattern corresponds and the outcome differs *)
+Definition c20acc_check (c : c20acc) : bool := let '(pat, out) := c20acc_eval c in negb pat || out.
+Definition c20acc_pattern (c : c20acc) : bool := fst (c20acc_eval c).
+Definition c20acc_show (c : c20acc) := c20acc_eval c.
